@@ -258,10 +258,12 @@ def check(repo, tier):
                     run.add(F(entry, 'D2', 'rank_transpose', f'{scen}: ' + '; '.join(bad[:3])))
     # ------------------------------------------------------------------ D3 tt2qtt / qtt2tt
     splits = [[[2]], [[2, 2]], [[2], [3]], [[2, 3], [1, 2]], [[3], [2, 2]]] if tier == 'quick' else [[[2]], [[3]], [[2, 2]], [[2], [3]], [[2, 3], [2]], [[3], [2, 2]], [[2, 2], [3, 2]], [[2], [2], [2]]]
-    for split in splits:
+    splits = [(sp, None) for sp in splits] + [([[2], [3]], (1, 0)), ([[2], [2]], (1, 0)), ([[2, 2], [3]], (1, 1))]
+    for split, unit in splits:
         # split[i] = number of factors of site i for rows (list of factor counts); here: list of factor-count lists
+        # unit = (site, position): that factor is 1 x 1 (a trivial factor in the middle of the chain, where the running rank is not 1)
         fac = [s[0] if len(s) == 1 else None for s in split]
-        scen = f'tt2qtt/qtt2tt(factors per site {[s for s in split]})'
+        scen = f'tt2qtt/qtt2tt(factors per site {[s for s in split]}{f", factor {unit[1]} of site {unit[0]} is 1 x 1" if unit else ""})'
         entry = f'{TTM}.TT.tt2qtt'
 
         def body(sc):
@@ -269,8 +271,8 @@ def check(repo, tier):
             rows, cols, rdims, cdims = [], [], [], []
             for i, s in enumerate(split):
                 nf = s[0]
-                rf = [sc.atom(f'p{i}_{j}') for j in range(nf)]
-                cf = [sc.atom(f'q{i}_{j}') for j in range(nf)]
+                rf = [1 if unit == (i, j) else sc.atom(f'p{i}_{j}') for j in range(nf)]
+                cf = [1 if unit == (i, j) else sc.atom(f'q{i}_{j}') for j in range(nf)]
                 rows.append(rf); cols.append(cf)
                 rd, cd = 1, 1
                 for x in rf:
@@ -303,8 +305,16 @@ def check(repo, tier):
             for e in sc.events('reshape-misaligned'):
                 if any(l.resolve().kind in ('M', 'R', 'P') for g in e['array'].legs for l in g):
                     bad.append('a reshape cuts or reorders the mode/rank indices: ' + e['detail'][:160])
+            # every core of the split train is computed from the operand (a core that is a constant array -- np.ones as a "neutral" core for a 1 x 1 factor -- is not
+            # a factor of the operand unless the bond it sits on has rank 1)
+            src_ids = {id(c) for c in a._attrs['cores']}
+            for k, c in enumerate(qtt._attrs['cores']):
+                if isinstance(c, Arr) and not (src_ids & set(A.ancestors([c]))) and not (A.is_one(c.shape[0]) and A.is_one(c.shape[3])):
+                    bad.append(f'core {k} of the QTT representation is not computed from any core of the operand ({c.origin})')
             got = [legs_sig(c) for c in back._attrs['cores']]
-            if got != sc.sig0:
+            if unit:
+                got, want0 = None, None          # (the unit factor contributes no index: the merged cores are compared through the class invariant and the dims above)
+            if got is not None and got != sc.sig0:
                 for k, (g, w) in enumerate(zip(got, sc.sig0)):
                     if g != w:
                         bad.append(f'after split and merge core {k} carries {back._attrs["cores"][k].legs} instead of the original indices')
